@@ -3,3 +3,9 @@ import ServlinVerif.Basic.Bytes
 import ServlinVerif.Model.Headers
 import ServlinVerif.Spec.Multimap
 import ServlinVerif.Lemmas.Headers
+import ServlinVerif.Model.Response
+import ServlinVerif.Model.HttpError
+import ServlinVerif.Spec.ErrorClasses
+import ServlinVerif.Gen.C20Tables
+import ServlinVerif.Props.C14
+import ServlinVerif.Props.C20
